@@ -285,6 +285,103 @@ def twin(stats):
     return any(fd["offending"] == "kw:rngs" for _, _, _, fd in res)
 
 
+# --------------------------------------------------------------------------- part 2: call forms through E2
+
+JOB_TIMEOUT_S = {"quick": 90, "thorough": 300}
+_CF = None
+
+
+def callforms():
+    """For every substituted FUNCTION whose original has optional scalar parameters: one call per
+    parameter with a non-default value, passed positionally and by keyword.  Obligation (C01
+    pipeline): the export raises, or the model is proved equivalent to JAX - an argument that is
+    silently ignored shows up as a value difference."""
+    global _CF
+    if _CF is not None:
+        return _CF
+    import numpy as np
+
+    specs, _ = collect_specs()
+    out = {}
+    seen = set()
+    for sp in specs:
+        tgt, attr, orig = sp["target"], sp["attr"], sp["orig"]
+        if inspect.isclass(tgt) or not inspect.ismodule(tgt) or not callable(orig):
+            continue
+        mod = tgt.__name__
+        if not (mod.startswith("jax.nn") or mod.startswith("jax.numpy") or mod in ("flax.nnx", "flax.linen", "flax.linen.activation", "jax.lax")):
+            continue
+        so = sig_of(orig)
+        if so is None or (mod, attr) in seen:
+            continue
+        seen.add((mod, attr))
+        params = list(so.parameters.values())
+        req = [p for p in params if p.default is P.empty and p.kind in (P.POSITIONAL_ONLY, P.POSITIONAL_OR_KEYWORD)]
+        if not (1 <= len(req) <= 2):
+            continue
+        opt = [p for p in params if p.default is not P.empty and p.kind in (P.POSITIONAL_OR_KEYWORD, P.KEYWORD_ONLY)]
+        pos_index = {p.name: i for i, p in enumerate([q for q in params if q.kind in (P.POSITIONAL_ONLY, P.POSITIONAL_OR_KEYWORD)])}
+        for p_ in opt:
+            d = p_.default
+            vals = []
+            if isinstance(d, bool):
+                vals = [not d]
+            elif isinstance(d, float):
+                vals = [d * 2.0 + 0.5]
+            elif isinstance(d, int):
+                vals = [d + 1] if p_.name not in ("axis",) else [0]
+            elif d is None and p_.name in ("axis",):
+                vals = [0, -1]
+            elif d is None and p_.name in ("keepdims",):
+                vals = [True]
+            elif d is None and p_.name in ("alpha", "negative_slope", "approximate", "min", "max", "a_min", "a_max", "decimals"):
+                vals = [0.25] if p_.name != "decimals" else [1]
+            for v in vals:
+                forms = [("kw", v)]
+                if p_.kind == P.POSITIONAL_OR_KEYWORD and pos_index.get(p_.name) == len(req):
+                    forms.append(("pos", v))
+                for form, val in forms:
+                    out[f"CF/{mod}.{attr}/{p_.name}={val!r}/{form}"] = (mod, attr, len(req), p_.name, val, form)
+    _CF = out
+    return out
+
+
+def list_jobs(tier):
+    ids = sorted(callforms())
+    return ids if tier == "thorough" else ids[:: max(1, len(ids) // 260)]
+
+
+def run_job(job, tier):
+    import importlib
+
+    import numpy as np
+
+    from .. import pipeline
+
+    mod, attr, nreq, pname, val, form = callforms()[job]
+    m = importlib.import_module(mod)
+
+    def fn(*arrays):
+        f = getattr(m, attr)  # late binding: the converter substitutes the module attribute
+        if form == "pos":
+            return f(*arrays, val)
+        return f(*arrays, **{pname: val})
+
+    prog = pipeline.Program(pid=job, fn=fn, specs=[((2, 3), np.dtype(np.float32))] * nreq)
+    r = pipeline.analyze(prog, pipeline.Options(timeout_ms=3000 if tier == "quick" else 20000, max_queries=24))
+    r["callform"] = {"target": f"{mod}.{attr}", "param": pname, "value": repr(val), "form": form}
+    if r.get("status") == "export_failed":
+        reason = r.get("reason") or ""
+        binding_failure = (reason.startswith("TypeError") and any(k in reason for k in ("argument", "positional", "keyword"))) or (reason.startswith("ValueError") and "unpack" in reason)
+        if binding_failure:
+            # JAX accepted the call (the reference trace succeeded) but the tracing-time substitute
+            # cannot bind it and the error is not an explicit unsupported-feature message
+            r["status"] = "violation"
+            r["kind"] = "call_rejected"
+            r["witness"] = {"why": f"valid call rejected while tracing: {reason[:200]}"}
+    return r
+
+
 def main(tier):
     t0 = time.time()
     specs, errors = collect_specs()
@@ -310,6 +407,18 @@ def main(tier):
             if len(samples) < 3:
                 samples.append({"spec": f"{tn}.{sp['attr']}", "original": str(so), "substitute": str(ssig), "witness_call_form": call})
     tw = twin(stats)
+    # part 2 through the sharded runner
+    from .. import runner
+
+    cf_results, crashed = runner.run_sharded("j2ov.checks.c19", tier)
+    cf_counts = {}
+    for r in cf_results:
+        cf_counts[r.get("status")] = cf_counts.get(r.get("status"), 0) + 1
+        if r.get("status") == "violation":
+            cfm = r.get("callform") or {}
+            w = r.get("witness") or {}
+            cls = "call_rejected" if r.get("kind") == "call_rejected" else "ignored_or_misbound"
+            violations.append({"key": f"{cfm.get('target')}|{cls}:{cfm.get('param')}|{cfm.get('form')}", "what": f"{cfm.get('target')}({cfm.get('param')}={cfm.get('value')} passed {cfm.get('form')}): {w.get('why') or 'exported model differs from JAX'}: inputs={str(w.get('inputs'))[:80]} jax={str(w.get('jax'))[:70]} ort={str(w.get('ort', w.get('ort_error')))[:70]}", "payload": {"job": r["job"], "witness": w}})
     if not samples:
         samples.append({"note": "no sat query"})
     cov = {
@@ -324,6 +433,7 @@ def main(tier):
         "solver_s": round(stats["solver_s"], 2),
         "collection_errors": errors[:30],
         "twin_refuted": tw,
+        "callforms": {"enumerated": len(callforms()), "run": len(cf_results), "verdicts": cf_counts, "worker_crashes": crashed, "rule": "raises (export_failed) or proved equivalent; a value difference = an argument ignored or mis-bound"},
         "bounds": {"positional_count": "0..N+1 (N = max positional parameters of the pair)", "keywords": "every subset of the union of parameter names + one fresh name", "values": "not modelled (argument values are irrelevant to binding)", "library_versions": "installed only"},
         "functions_encoded": ["PrimitiveLeafPlugin.binding_specs (all plugins)", "MonkeyPatchSpec.make_value(orig)", "FunctionPlugin patches via _iter_patch_specs", "inspect.signature of original and substitute"],
     }
